@@ -78,6 +78,7 @@ fn dispatch(cmd: &str, family: &str, a: &Args, out: &mut Out) {
         ("record", "classify") => drv_decode::rec_classify(a, out),
         ("record", "roundtrip") => drv_rt::rec_roundtrip(a, out),
         ("record", "fields") => drv_fields::rec_fields(a, out),
+        ("record", "fieldnf") => drv_fields::rec_fieldnf(a, out),
         ("record", "probes") => drv_fields::rec_probes(a, out),
         ("record", "sigtable") => drv_sig::rec_sigtable(a, out),
         ("record", "msm") => drv_msm::rec_msm(a, out),
